@@ -576,6 +576,14 @@ def option_match(labels, arms):
     return None
 
 
+def _can_leave_loop(e):
+    """may the expression end the enclosing loop or function (`break`, `return`, `?`)? (`continue` only ends the round)"""
+    for x in H.exprs(e):
+        if x.get("k") in ("Break", "Ret", "Try"):
+            return True
+    return False
+
+
 class NF:
     """Expression -> normal form, for one function body (params are roots)."""
 
@@ -858,14 +866,23 @@ class NF:
                 cur_env = cur_env.child()
                 for l in lets:
                     self.bind_let(l, cur_env)
-                # statements that only skip the element (`if !wanted(x) { continue; }`) in front of the push are conditions of it
-                for o in others[:-1]:
+                touching = [i_ for i_, o in enumerate(others) if self._mutations(lid, [o["e"]])]
+                if len(touching) != 1:
+                    return None
+                at = touching[0]
+                # statements that only skip the element (`if !wanted(x) { continue; }`) in front of the push are conditions of it; other
+                # work of the round that neither touches the list nor can leave the loop (`break`, `return`, `?`) is none of its business
+                for o in others[:at]:
                     dc = diverge_condition(self, o["e"], cur_env)
-                    if dc is None or self._mutations(lid, [o["e"]]):
+                    if dc is not None:
+                        self._push_conds.append(("not", dc))
+                        conditional = True
+                    elif _can_leave_loop(o["e"]):
                         return None
-                    self._push_conds.append(("not", dc))
-                    conditional = True
-                body = H.strip(others[-1]["e"])
+                for o in others[at + 1:]:
+                    if _can_leave_loop(o["e"]):
+                        return None
+                body = H.strip(others[at]["e"])
                 continue
             if k == "If" and not body.get("else"):
                 c = H.strip(body["cond"])
@@ -881,6 +898,12 @@ class NF:
                 continue
             if k == "MethodCall" and body["name"] == "push" and self._mutations(lid, [body]):
                 return self.nf(body["args"][0], cur_env), conditional
+            if k == "MethodCall" and body["name"] == "extend" and len(body["args"]) == 1 and self._mutations(lid, [body]) \
+                    and str(H.strip(body["args"][0]).get("ty") or "").replace("&", "").strip().startswith("std::option::Option<"):
+                # `v.extend(opt)`: what the Option holds is pushed, when it holds something
+                opt = self.nf(body["args"][0], cur_env)
+                self._push_conds.append(("islet", "Some", opt))
+                return ("payload", "Some", opt), True
             return None
         return None
 
@@ -2034,11 +2057,15 @@ class Extractor:
                 if some is not None:
                     # `match opt { Some(x) => .., None => .. }` reads as `if let Some(x) = opt { .. } else { .. }`
                     alts = _conjuncts(("islet", labels[some], scrut)) if i == some else (("alt", ("islet", labels[some], scrut), False),)
-                elif _catch_all(a["pat"]) and not a.get("guard"):
+                elif (_catch_all(a["pat"]) or (i == len(e["arms"]) - 1 and i > 0 and not list(H.pat_bindings(a["pat"]))
+                                               and all(not x.get("guard") for x in e["arms"]))) and not a.get("guard"):
+                    # (a `match` is exhaustive: its last arm is taken whenever the others are not, whatever its pattern says)
                     # `_ => ..` / `other => ..`: taken when none of the earlier patterns matched
                     alts = tuple(("alt", ("islet", labels[j], scrut), False) for j in range(i) if not e["arms"][j].get("guard"))
                 else:
-                    alts = (("alt", ("islet", labels[i], scrut), True),)
+                    # this arm was taken, the (unguarded) arms before it were not: arms of one match exclude each other
+                    alts = tuple(("alt", ("islet", labels[j], scrut), False) for j in range(i)
+                                 if not e["arms"][j].get("guard") and not _catch_all(e["arms"][j]["pat"]) and i <= 6) + (("alt", ("islet", labels[i], scrut), True),)
                 self._visit(fn, a["body"], env_a, ctx + alts, out, how)
             return
         if k == "For":
